@@ -36,6 +36,8 @@ Definition deriv_state (n : string) : option string :=
 Definition state_of (a : assign) : string :=
   match deriv_state (a_name a) with Some s => s | None => "" end.
 
+Definition deriv_name_of (s : string) : string := String.append "d" (String.append s "_dt").
+
 Definition assigns (o : ode) : list assign := o_inters o ++ o_derivs o.
 
 Definition find_assign (o : ode) (x : string) : option assign :=
